@@ -59,7 +59,13 @@ pub struct Ctx {
 /// The `check` script builds them next to the main binary; the main run spawns each applicable one
 /// (`VERIF_VARIANT=<name>`), which runs the same property code against the library crates built
 /// with that configuration and hands its failures back on a `WORKER_RESULT` line.
-pub const VARIANTS: [(&str, &str, &[&str], &str); 5] = [
+pub const VARIANTS: [(&str, &str, &[&str], &str); 6] = [
+    (
+        "stack128",
+        "/verif/.target/release/nexrad-mc",
+        &["C01", "C03", "C04", "C05", "C06", "C07", "C09", "C10", "C13", "C14", "C16", "C19"],
+        "the main build, with every probe operation of the history checks also run on a thread whose stack is 128 KiB (the default of musl-based systems); one pass; a process that dies there is a verdict",
+    ),
     (
         "dbg",
         "/verif/.target/v-dbg/dbg/nexrad-mc",
@@ -110,7 +116,11 @@ pub fn spawn_variants(prop: &str, tier: Tier) -> Vec<(&'static str, &'static str
             out.push((name, what, None));
             continue;
         }
-        let child = std::process::Command::new(bin)
+        let mut cmd = std::process::Command::new(bin);
+        if name == "stack128" {
+            cmd.env("VERIF_SMALL_STACK", "131072").env("VERIF_SINGLE_PASS", "1");
+        }
+        let child = cmd
             .args([prop, tier.name()])
             .env("VERIF_VARIANT", name)
             .stdout(std::process::Stdio::piped())
@@ -132,6 +142,27 @@ pub fn collect_variants(ctx: &Ctx, children: Vec<(&'static str, &'static str, Op
         let o = child.wait_with_output().unwrap_or_else(|e| machinery(&format!("wait variant {name}: {e}")));
         let text = String::from_utf8_lossy(&o.stdout).to_string();
         let line = text.lines().find_map(|l| l.strip_prefix("WORKER_RESULT "));
+        if line.is_none() && name == "stack128" && !o.status.success() {
+            // the child announces every small-stack case before running it; dying there (stack
+            // overflow cannot be caught) is a verdict about that case
+            let last = text.lines().rev().find_map(|l| l.strip_prefix("SECTION_CASE ")).unwrap_or("<before the first small-stack case>").to_string();
+            use std::os::unix::process::ExitStatusExt;
+            let how = match (o.status.signal(), o.status.code()) {
+                (Some(s), _) => format!("killed by signal {s}"),
+                (_, Some(c)) => format!("exit status {c}"),
+                _ => "unknown termination".to_string(),
+            };
+            if last.starts_with('<') {
+                machinery(&format!("variant stack128 of {} died outside a small-stack case: {how}", ctx.prop));
+            }
+            ctx.fail(
+                "abort:small_stack:process_died_running_an_operation_on_a_128_KiB_stack",
+                || format!("[build configuration stack128: {what}] the process died ({how}) while running `{last}` on a thread with a 128 KiB stack"),
+                || json!({"op": "history", "what": last, "build_config": "stack128"}),
+            );
+            ctx.build_configs.lock().unwrap_or_else(|e| e.into_inner()).push(json!({"name": name, "configuration": what, "status": "died", "last_case": last}));
+            continue;
+        }
         let Some(v) = line.and_then(|l| serde_json::from_str::<Value>(l).ok()) else {
             machinery(&format!("variant {name} of {} produced no result (status {:?}); output tail: {}", ctx.prop, o.status, text.chars().rev().take(600).collect::<String>().chars().rev().collect::<String>()));
         };
@@ -306,7 +337,7 @@ impl Ctx {
                 "environment".into(),
                 json!({
                     "TZ": std::env::var("TZ").unwrap_or_default(),
-                    "logging_passes": if self.prop == "C20" || std::env::var("VERIF_SINGLE_PASS").is_ok() { vec!["off".to_string()] } else { let mut v: Vec<String> = preliminary_log_levels(self.tier).iter().map(|l| format!("{l} (sink logger, nexrad targets{})", if *l == log::LevelFilter::Trace { "; wall clock set to 1986-07-01" } else if *l == log::LevelFilter::Debug { "; byte buffers allocated at odd addresses; every environment-variable-shaped literal of the source set to 1" } else { "" })).collect(); v.push("Off, real wall clock (reported)".into()); v },
+                    "logging_passes": if self.prop == "C20" || std::env::var("VERIF_SINGLE_PASS").is_ok() { vec!["off".to_string()] } else { let mut v: Vec<String> = preliminary_log_levels(self.tier).iter().map(|l| format!("{l} (sink logger, nexrad targets{})", if *l == log::LevelFilter::Trace { "; wall clock set to 1986-07-01; stderr replaced by a broken pipe (main configuration)" } else if *l == log::LevelFilter::Debug { "; byte buffers allocated at odd addresses; every environment-variable-shaped literal of the source set to 1" } else { "" })).collect(); v.push("Off, real wall clock (reported)".into()); v },
                     "wall_clock": "owned: the harness binary defines clock_gettime; CLOCK_REALTIME answers come from the harness (self-tested against chrono::Utc::now at start-up)",
                     "profile": if cfg!(debug_assertions) { "opt-level 2, overflow-checks on, debug-assertions on" } else { "opt-level 2, overflow-checks on, debug-assertions off" },
                 }),
@@ -334,7 +365,7 @@ impl Ctx {
             let _ = std::fs::create_dir_all(format!("{VERIF_DIR}/evidence"));
             let path = format!("{VERIF_DIR}/evidence/{}.json", self.prop);
             if let Err(e) = std::fs::write(&path, serde_json::to_string_pretty(&ev).unwrap_or_default()) {
-                eprintln!("MACHINERY: cannot write evidence {path}: {e}");
+                crate::core::elog!("MACHINERY: cannot write evidence {path}: {e}");
                 return 3;
             }
         }
@@ -371,7 +402,7 @@ fn load_known(prop: &str) -> Vec<KnownEntry> {
         return Vec::new();
     };
     let Ok(v) = serde_json::from_str::<Value>(&text) else {
-        eprintln!("MACHINERY: known_findings.json does not parse");
+        crate::core::elog!("MACHINERY: known_findings.json does not parse");
         std::process::exit(3);
     };
     let mut out = Vec::new();
@@ -664,7 +695,7 @@ pub fn unhex(s: &str) -> Vec<u8> {
 
 /// Machinery failure (not a verdict).
 pub fn machinery(msg: &str) -> ! {
-    eprintln!("MACHINERY: {msg}");
+    crate::core::elog!("MACHINERY: {msg}");
     std::process::exit(3);
 }
 
@@ -710,19 +741,22 @@ fn scan_literals(t: &[u8], out: &mut std::collections::BTreeSet<Vec<u8>>) {
             i += 4;
             continue;
         }
-        if t[i] != b'"' {
+        // string literals, and `code spans` of doc comments (magic values are often only documented)
+        if t[i] != b'"' && t[i] != b'`' {
             i += 1;
             continue;
         }
+        let quote = t[i];
         let mut j = i + 1;
         let mut lit: Vec<u8> = Vec::new();
         let mut closed = false;
         while j < t.len() {
             match t[j] {
-                b'"' => {
+                q if q == quote => {
                     closed = true;
                     break;
                 }
+                b'\n' if quote == b'`' => break,
                 b'\\' if j + 1 < t.len() => {
                     j += 1;
                     match t[j] {
@@ -779,6 +813,61 @@ pub fn set_source_env_vars(on: bool) -> usize {
         }
     }
     n
+}
+
+/// `eprintln!` that cannot panic: the harness may have replaced fd 2 by a broken pipe (see
+/// `break_stderr`), and MACHINERY messages also go to stdout so that they are never lost.
+#[macro_export]
+macro_rules! elog {
+    ($($arg:tt)*) => {{
+        use std::io::Write;
+        let m = format!($($arg)*);
+        let _ = writeln!(std::io::stderr(), "{m}");
+        if m.starts_with("MACHINERY") {
+            let _ = writeln!(std::io::stdout(), "{m}");
+        }
+    }};
+}
+pub use elog;
+
+extern "C" {
+    fn pipe(fds: *mut i32) -> i32;
+    fn dup(fd: i32) -> i32;
+    fn dup2(old: i32, new: i32) -> i32;
+    fn close(fd: i32) -> i32;
+}
+
+static SAVED_STDERR: std::sync::atomic::AtomicI32 = std::sync::atomic::AtomicI32::new(-1);
+
+/// The standard error stream as an owned part of the environment: `on` replaces fd 2 by the write
+/// end of a pipe whose read end is closed (every write fails with EPIPE; Rust ignores SIGPIPE), `off`
+/// restores it. A library that prints with `eprintln!` panics in such a process (a daemon whose
+/// stderr went away, a closed terminal); decoding must not depend on it.
+pub fn break_stderr(on: bool) {
+    use std::sync::atomic::Ordering::SeqCst;
+    // SAFETY: plain fd manipulation with checked results
+    unsafe {
+        if on {
+            if SAVED_STDERR.load(SeqCst) >= 0 {
+                return;
+            }
+            let saved = dup(2);
+            let mut fds = [0i32; 2];
+            if saved < 0 || pipe(fds.as_mut_ptr()) != 0 {
+                return;
+            }
+            close(fds[0]);
+            dup2(fds[1], 2);
+            close(fds[1]);
+            SAVED_STDERR.store(saved, SeqCst);
+        } else {
+            let saved = SAVED_STDERR.swap(-1, SeqCst);
+            if saved >= 0 {
+                dup2(saved, 2);
+                close(saved);
+            }
+        }
+    }
 }
 
 /// Debug-formats `x` in every formatter mode a caller can select (`{:?}`, the pretty / alternate
@@ -957,6 +1046,27 @@ pub fn history_check<R: PartialEq + Send + Sync + std::fmt::Debug>(
                 || json!({"op": "history", "what": what, "sequence": [i], "one_cpu": true}),
             );
         }
+    }
+    // stack dimension (only in the stack128 variant process): each operation on a thread with a
+    // small stack; the case is announced first because a stack overflow kills the process
+    if let Some(bytes) = std::env::var("VERIF_SMALL_STACK").ok().and_then(|v| v.parse::<usize>().ok()) {
+        for (i, b) in base.iter().enumerate() {
+            use std::io::Write;
+            println!("SECTION_CASE {what}: {}", describe(i));
+            let _ = std::io::stdout().flush();
+            let r = std::thread::scope(|s| {
+                let op = &op;
+                std::thread::Builder::new().stack_size(bytes).spawn_scoped(s, move || op(i)).ok().and_then(|h| h.join().ok())
+            });
+            if r.as_ref() != b.as_ref() {
+                ctx.fail(
+                    &format!("stack:{what}:result_depends_on_the_stack_size_of_the_calling_thread"),
+                    || format!("{what}: {} on a {bytes}-byte stack gives {} instead of {}", describe(i), format!("{:?}", r).chars().take(160).collect::<String>(), format!("{:?}", b).chars().take(160).collect::<String>()),
+                    || json!({"op": "history", "what": what, "sequence": [i]}),
+                );
+            }
+        }
+        println!("SECTION_CASE <after the small-stack cases of {what}>");
     }
     // execution-context dimension: the same (synchronous) operation called from inside an async
     // executor: a current-thread tokio runtime (what #[tokio::test] and flavor = "current_thread"
